@@ -304,17 +304,23 @@ Definition lock_enter (l : nat) : prog :=
                                              else oku o) ;;; Raise e)
      end) ;;;
     Upd (fun o => let x := get_lock o l in set_lock o l (x <| l_depth := (l_depth x + 1)%Z |>))).
-(** [Lock.__aexit__] (never swallows) *)
-Definition lock_exit (l : nat) : prog :=
-  Do (fun o _ =>
+(** [Lock.__aexit__(exc_type, ...)] (never swallows).  The debugging assertion
+    [exc_type is GeneratorExit or owner == loop.activity] is part of the behaviour: it fails when a holder
+    that is being closed by another activity leaves the block with an exception other than GeneratorExit
+    (known finding D14). *)
+Definition lock_exit (l : nat) (exc : option exn) : prog :=
+  Do (fun o a =>
         let x := get_lock o l in
+        let ok := match exc with Some EGenExit => true | _ => owner_is o l a end in
+        if negb ok then err o EAssertion
+        else
         let o1 := set_lock o l (x <| l_depth := (l_depth x - 1)%Z |>) in
         if (l_depth x - 1 =? 0)%Z then let '(o', ks) := lock_release o1 l in okk o' ks else oku o1).
 (** [async with lock: body] *)
 Definition with_lock (l : nat) (body : prog) : prog :=
   lock_enter l ;;;
-  v <- Catch body (fun e => lock_exit l ;;; Raise e) ;;
-  lock_exit l ;;; Ret v.
+  v <- Catch body (fun e => lock_exit l (Some e) ;;; Raise e) ;;
+  lock_exit l None ;;; Ret v.
 (** [Lock.available] *)
 Definition lock_available (o : objs) (l : nat) (a : aid) : bool :=
   match l_owner (get_lock o l) with None => true | Some b => Nat.eqb a b end.
@@ -460,6 +466,8 @@ Definition task_await (t : tid) : prog :=
                   end).
 
 (** ** Scope *)
+(** user class 3 is AssertionError, 4 is KeyboardInterrupt; [EAssertion] is an AssertionError raised by
+    an assertion inside the library *)
 Definition exn_is_promoted (e : exn) : bool :=      (* isinstance(exc, PROMOTE_CONCURRENT) *)
   match e with EUser 3 _ | EUser 4 _ | EAssertion => true | _ => false end.
 Definition exn_type_promoted (e : exn) : bool := exn_is_promoted e.   (* exc_type in PROMOTE_CONCURRENT *)
@@ -481,30 +489,40 @@ Definition is_suppressed_sig (s : scoperec) (e : exn) : bool :=   (* [_is_suppre
   | _ => false
   end.
 
-(** [Scope._propagate_exceptions]: VB true = re-raise the body's exception, VB false = swallow,
-    or raises the privileged / concurrent exception *)
+(** [Scope._propagate_exceptions] as a pure function of the recorded child failures, whether the exception
+    leaving the body is one of the scope's own signals ([_is_suppressed]), and that exception *)
+Inductive presult := PSwallow | PReraise | PRaise (e : exn).
+Definition propagate_pure (failures : list exn) (own_signal : bool) (exc : option exn) : presult :=
+  match exc with
+  | Some e =>
+      if exn_type_promoted e then PReraise
+      else if own_signal then
+             match collect_exceptions failures [] with
+             | (Some p, _) => PRaise p
+             | (None, []) => PSwallow
+             | (None, l) => PRaise (EConcurrent l)
+             end
+           else match collect_exceptions failures [] with
+                | (Some p, _) => PRaise p
+                | _ => PReraise
+                end
+  | None =>
+      match collect_exceptions failures [] with
+      | (Some p, _) => PRaise p
+      | (None, []) => PSwallow
+      | (None, l) => PRaise (EConcurrent l)
+      end
+  end.
+
+(** VB true = re-raise the body's exception, VB false = swallow, or raises the privileged / concurrent exception *)
 Definition propagate (sc : scid) (exc : option exn) : prog :=
   Do (fun o _ =>
         let s := get_scope o sc in
-        match exc with
-        | Some e =>
-            if exn_type_promoted e then okv o (VB true)
-            else if is_suppressed_sig s e then
-                   match collect_exceptions (s_failures s) [] with
-                   | (Some p, _) => err o p
-                   | (None, []) => okv o (VB false)
-                   | (None, l) => err o (EConcurrent l)
-                   end
-                 else match collect_exceptions (s_failures s) [] with
-                      | (Some p, _) => err o p
-                      | _ => okv o (VB true)
-                      end
-        | None =>
-            match collect_exceptions (s_failures s) [] with
-            | (Some p, _) => err o p
-            | (None, []) => okv o (VB false)
-            | (None, l) => err o (EConcurrent l)
-            end
+        let own := match exc with Some e => is_suppressed_sig s e | None => false end in
+        match propagate_pure (s_failures s) own exc with
+        | PSwallow => okv o (VB false)
+        | PReraise => okv o (VB true)
+        | PRaise p => err o p
         end).
 
 (** close every task of a list (a copy taken before), in order *)
